@@ -19,7 +19,7 @@ MCStep ==
 MCNext == MCStep /\ due' = DueNext
 MCSpec == MCInit /\ [][MCNext]_mcvars
 \* `sent` only feeds the per-step properties (C01Step ...), so states that differ in it alone are merged
-MCView == <<st, mp, round, mq, h, bq, stored, wire, panic, due, ann, fuel>>
+MCView == <<st, mp, mg, mq, h, bq, stored, wire, panic, due, ann, fuel>>
 CONSTANT MaxQ
 QBound == Len(mq) <= MaxQ
 N2 == (1 :> 1) @@ (2 :> 2)
